@@ -75,11 +75,12 @@ def observables(rng, f, x_factory):
     par = dict(zip(ids, f['parents']))
     leaves = [i for i in ids if i not in set(f['parents']) and par[i] >= 0]
     ign = [int(v) for v in rng.choice(leaves, size=min(len(leaves), 2), replace=False)] if leaves and rng.random() < 0.3 else []
+    mts = [None, None, 3, 4][int(rng.integers(4))]
     def si(x):
         y = x.copy()
-        navis.strahler_index(y, method=method, to_ignore=list(ign))
+        navis.strahler_index(y, method=method, to_ignore=list(ign), min_twig_size=mts)
         return {int(i): int(v) for i, v in zip(y.nodes.node_id.values, y.nodes.strahler_index.values)}
-    obs.append(('strahler_index', dict(method=method, to_ignore=ign), si))
+    obs.append(('strahler_index', dict(method=method, to_ignore=ign, min_twig_size=mts), si))
     size = float(rng.choice([0.5, 2.5, 6.5, 15.5])); rec = [False, True][int(rng.integers(2))]
     # integer-lattice forests have integer edge lengths: thresholds that are EXACTLY a twig's length (ties) are legitimate inputs
     xyz_ = np.array(f['xyz'], dtype=float)
@@ -175,7 +176,7 @@ def known_key(name, params, f, results, how):
         return i
     branched_roots = set(root_of(i) for i in f['ids'] if nch.get(i, 0) >= 2)
     unbranched_fragment = any(par[i] >= 0 and root_of(i) not in branched_roots for i in f['ids'])
-    if name == 'strahler_index' and how == 'diff' and params.get('to_ignore'):
+    if name == 'strahler_index' and how == 'diff' and (params.get('to_ignore') or params.get('min_twig_size')):
         fc = results['fastcore'][1] if results['fastcore'][0] == 'ok' else {}
         if any(v == 0 for v in fc.values()):
             return 'C04:strahler-ignored-twig-index-zero'
